@@ -474,6 +474,19 @@ func c08Trace(work, line string, lineNo int, r *rng, every int) {
 	}
 	var wgStart [21]float64
 	days, replayed, emitted, cropDays, skipped := 0, 0, 0, 0, 0
+	// the day: what the Water sub-steps book as actual ET (PFTRANS, ETAG after sowing, TRAY) against the day's potential ET
+	var day struct {
+		ok                         bool
+		verdu                      float64
+		booked, sumWdt             float64
+		gainPF, gainETAG, gainTRAY float64
+		pf0, etag0, tray0          float64
+		steps                      int
+		zsr                        float64
+		overflow                   bool
+	}
+	multiStepDays, overflowDays, fracDays, fracHighDays, dayChecked := 0, 0, 0, 0, 0
+	maxBookedShare := 0.0
 	// hypotheses of the theorems (Prop_C08.evatra_wf) observed on the real states
 	hypW, hypWudich, hypLumday, lukritZeroDays, lukritZeroWetDays := 0, 0, 0, 0, 0
 	minLupor := math.Inf(1)
@@ -530,18 +543,96 @@ func c08Trace(work, line string, lineNo int, r *rng, every int) {
 			}
 			c08Oracle(where, g, w, res.verdu, res.crop)
 			c08AllMethods(where, &pre.g, &pre.l, zeit)
+			day.ok, day.verdu = true, res.verdu
+			day.zsr, day.overflow = c08Zsr(g)
+		case "steps":
+			day.steps = subd
+		case "water-pre":
+			day.pf0, day.etag0, day.tray0 = g.PFTRANS, g.ETAG, g.TRAY
 		case "water":
 			if subd == 1 {
 				c08UptakeAvail(fmt.Sprintf("trace line=%d zeit=%d", lineNo, zeit), g, wgStart[:g.N])
 			}
+			sum := 0.0
+			for i := 0; i < g.N; i++ {
+				sum += g.TP[i]
+			}
+			day.booked += (g.ETA + sum) * wdt
+			day.sumWdt += wdt
+			day.gainPF += g.PFTRANS - day.pf0
+			day.gainETAG += g.ETAG - day.etag0
+			day.gainTRAY += g.TRAY - day.tray0
+		case "dayend":
+			if day.ok {
+				dayChecked++
+				if day.steps > 1 {
+					multiStepDays++
+				}
+				if day.overflow {
+					overflowDays++
+					if fr := day.zsr - math.Floor(day.zsr); fr > 0 {
+						fracDays++
+						if fr >= 0.5 {
+							fracHighDays++
+						}
+					}
+				}
+				where := fmt.Sprintf("trace line=%d zeit=%d meth=%d", lineNo, zeit, g.ETMETH)
+				tol := 1e-9 * (1 + math.Abs(g.PFTRANS) + math.Abs(g.ETAG) + math.Abs(g.TRAY))
+				if !(day.booked <= day.verdu+tol) || !(day.gainPF <= day.verdu+tol) || !(day.gainETAG <= day.verdu+tol) || !(day.gainTRAY <= day.verdu+tol) {
+					oracleFail("booked-aet-above-pet %s steps=%d sumwdt=%v zsr=%v booked=%v pftrans-gain=%v etag-gain=%v tray-gain=%v verdu=%v excess=%g",
+						where, day.steps, day.sumWdt, day.zsr, day.booked, day.gainPF, day.gainETAG, day.gainTRAY, day.verdu, math.Max(day.booked, day.gainPF)-day.verdu)
+				}
+				if day.verdu > 0 {
+					maxBookedShare = math.Max(maxBookedShare, day.booked/day.verdu)
+				}
+			}
+			day.ok, day.booked, day.sumWdt, day.gainPF, day.gainETAG, day.gainTRAY, day.steps = false, 0, 0, 0, 0, 0, 0
 		}
 	}
 	rr := runProject(work, splitArgs(line))
 	hermes.VerifProbe = nil
 	emit(jobj{"k": "c08run", "line": lineNo, "success": rr.Success, "err": rr.Err, "days": days, "replayed": replayed,
 		"emitted": emitted, "crop_days": cropDays, "skipped": skipped,
-		"hyp":              jobj{"w0_le_wmin3": hypW, "wudich_negative": hypWudich, "lumday_negative": hypLumday},
-		"lukrit_zero_days": lukritZeroDays, "lukrit_zero_topsoil_above_pore_volume_days": lukritZeroWetDays, "min_lupor": finiteOrNil(minLupor)})
+		"hyp":         jobj{"w0_le_wmin3": hypW, "wudich_negative": hypWudich, "lumday_negative": hypLumday},
+		"day_checked": dayChecked, "multi_step_days": multiStepDays, "rain_overflow_days": overflowDays,
+		"rain_overflow_fractional_zsr_days": fracDays, "rain_overflow_zsr_fraction_ge_half_days": fracHighDays,
+		"max_booked_share_of_pet": finiteOrNil(maxBookedShare),
+		"lukrit_zero_days":        lukritZeroDays, "lukrit_zero_topsoil_above_pore_volume_days": lukritZeroWetDays, "min_lupor": finiteOrNil(minLupor)})
+}
+
+// c08Zsr mirrors the sub-step demand of the day loop (run.go:499-527) on the post-Evatra state: the value of ZSR and
+// whether it comes from the rain-overflow branch (rain above the cumulated free storage) rather than from the
+// surface-flux classes 1, 2, 4, 8
+func c08Zsr(g *hermes.GlobalVarsMain) (float64, bool) {
+	pri := math.Abs(g.FLUSS0 * g.DZ.Num)
+	f := 1.0
+	if pri <= 5.0 {
+		f = 1.0
+	} else if 5.0 < pri && pri <= 10.0 {
+		f = 0.5
+	} else if 10.0 < pri && pri <= 15.0 {
+		f = 0.25
+	} else if pri > 15.0 {
+		f = 0.125
+	}
+	zsr := 1 / f
+	overflow := false
+	fscs := 0.0
+	var fscsum [21]float64
+	for i := 0; i < g.N; i++ {
+		fscs += (g.W[i] - g.WG[0][i]) * g.DZ.Num
+		fscsum[i] = fscs
+	}
+	for i := 0; i < g.N; i++ {
+		if g.REGEN[g.TAG.Index]-fscsum[i] > g.W[i]*g.DZ.Num/3 {
+			v := (g.REGEN[g.TAG.Index] - fscsum[i]) / (g.W[i] * g.DZ.Num / 3)
+			if v > zsr {
+				zsr, overflow = v, true
+			}
+		}
+	}
+	return zsr, overflow
 }
 
 func finiteOrNil(f float64) interface{} {
